@@ -142,6 +142,7 @@ class Env:
             "in_alt": self.term.in_alt,
             "main": tuple(tuple(r) for r in self.term.main),
         }
+        s["sigmask"] = sorted(int(x) for x in signal.pthread_sigmask(signal.SIG_BLOCK, []))
         if with_signals:
             s["sigint"] = signal.getsignal(signal.SIGINT)
             s["wakeup"] = current_wakeup_fd()
@@ -358,9 +359,10 @@ def ops_for(kind):
 class FaultyOS:
     """Forwards to the real os module; the k-th read raises OSError once."""
 
-    def __init__(self, k):
+    def __init__(self, k, eagain=False):
         self._k = k
         self._n = 0
+        self._eagain = eagain
 
     def __getattr__(self, name):
         return getattr(os, name)
@@ -368,6 +370,10 @@ class FaultyOS:
     def read(self, fd, n):
         self._n += 1
         if self._n == self._k:
+            if self._eagain:
+                # select reported the stream ready, but what was there is gone (flushed, or read by someone else)
+                termios.tcflush(fd, termios.TCIFLUSH) if os.isatty(fd) else None
+                raise BlockingIOError(11, "Resource temporarily unavailable")
             raise OSError(5, "injected read error")
         return os.read(fd, n)
 
@@ -410,6 +416,28 @@ def execute(env, cfg, factory, kind, body, crash, cdir, lifecycle="fresh"):
             except Exception as ex:  # noqa
                 return None, [("C12:reuse_first_use_raises:" + type(ex).__name__, repr(ex))], "first_use_failed"
     env.reset(cfg["tty"], cfg["nonblock"], cfg["prev_handler"], cfg["prev_wakeup"])
+    saved_stdin = None
+    if cfg.get("stdin_closed"):
+        try:
+            saved_stdin = os.dup(0)
+            os.close(0)
+        except OSError:
+            saved_stdin = None
+    try:
+        return _execute(env, cfg, factory, kind, body, crash, cdir, ctx_early)
+    finally:
+        if saved_stdin is not None:
+            try:
+                os.close(0)
+            except OSError:
+                pass
+            os.dup2(saved_stdin, 0)
+            os.close(saved_stdin)
+
+
+def _execute(env, cfg, factory, kind, body, crash, cdir, ctx_early):
+    import curtsies.input as ci
+
     s0 = env.snapshot()
     fails = []
     state = {"armed": False, "count": 0}
@@ -440,6 +468,8 @@ def execute(env, cfg, factory, kind, body, crash, cdir, lifecycle="fresh"):
     use_prof = crash is not None and crash[0] in ("async", "count")
     if crash and crash[0] == "read":
         ci.os = FaultyOS(crash[1])
+    if crash and crash[0] == "read_eagain":
+        ci.os = FaultyOS(crash[1], eagain=True)
     if crash and crash[0] == "select":
         ci.select = FaultySelect(crash[1])
     try:
@@ -473,7 +503,7 @@ def execute(env, cfg, factory, kind, body, crash, cdir, lifecycle="fresh"):
         outcome = "KeyboardInterrupt"
     except OSError as ex:
         outcome = "OSError"
-        if not (crash and crash[0] in ("write", "read", "select")):
+        if not (crash and crash[0] in ("write", "read", "select", "read_eagain")):
             fails.append(("C12:unexpected_OSError", repr(ex)))
     except Exception as ex:  # noqa
         outcome = "exception:" + type(ex).__name__
@@ -494,6 +524,9 @@ def execute(env, cfg, factory, kind, body, crash, cdir, lifecycle="fresh"):
         fcntl.fcntl(env.slave, fcntl.F_SETFL, s0["fl"])
     if s1["sigint"] is not s0["sigint"]:
         fails.append(("C12:sigint_handler_not_restored", "before %r after %r" % (s0["sigint"], s1["sigint"])))
+    if s1["sigmask"] != s0["sigmask"]:
+        fails.append(("C12:signal_mask_not_restored", "blocked signals before %r after %r" % (s0["sigmask"], s1["sigmask"])))
+        signal.pthread_sigmask(signal.SIG_SETMASK, s0["sigmask"])
     if s1["wakeup"] != s0["wakeup"]:
         fails.append(("C12:wakeup_fd_not_restored", "before %r after %r" % (s0["wakeup"], s1["wakeup"])))
     if s1["fds"] != s0["fds"]:
@@ -534,6 +567,9 @@ def configs_for(kind, thorough):
     out.append(dict(base, tty="rawish", nonblock=True, prev_handler="custom", prev_wakeup="pipe"))
     out.append(dict(base, prev_handler="SIG_DFL"))
     out.append(dict(base, prev_handler="SIG_IGN", prev_wakeup="pipe"))
+    # descriptor 0 is free (the program closed its stdin): the next pipe() or open() gets number 0
+    out.append(dict(base, stdin_closed=True))
+    out.append(dict(base, stdin_closed=True, prev_handler="custom", prev_wakeup="pipe"))
     return out
 
 
@@ -599,10 +635,10 @@ def shard(args):
                     _, fails, outcome = execute(env, cfg, factory, kind, body, ("async", k, how), cdir)
                     record(body, ("async", k, how), fails, outcome)
             acc.add("async_points", n or 0)
-        if len(body) == 1 and cfg_idx in (0, 9):
+        if len(body) == 1 and cfg_idx in (0, 9, 12):
             faults = [("write", k) for k in range(0, 12)] if kind != "input" and kind != "helper" else []
             if kind == "input":
-                faults = [("read", k) for k in range(1, 4)] + [("select", k) for k in range(1, 4)]
+                faults = [("read", k) for k in range(1, 4)] + [("select", k) for k in range(1, 4)] + [("read_eagain", k) for k in range(1, 4)]
             for f in faults:
                 _, fails, outcome = execute(env, cfg, factory, kind, body, f, cdir)
                 record(body, f, fails, outcome)
@@ -805,8 +841,47 @@ def execute_thread(env, cfg, factory, kind, body, crash, cdir):
     return None, fails, outcome
 
 
+def check_import_in_thread(acc):
+    """New processes in which the library is first imported on a non-main thread (mc/import_in_thread.py)."""
+    import json
+    import subprocess
+
+    from mc import runner
+
+    script = os.path.join(os.path.dirname(os.path.dirname(os.path.abspath(__file__))), "import_in_thread.py")
+    for scenario in ("thread_only", "thread_then_main", "main_after_thread_import"):
+        case = {"context": "Input", "scenario": "curtsies first imported on a non-main thread of a new process: " + scenario}
+        acc.case(True, key=("import_in_thread", scenario), sample=case)
+        acc.transitions += 1
+        r = subprocess.run([sys.executable, script, runner.REPO, scenario], capture_output=True, text=True, timeout=120, env=dict(os.environ, TERM="xterm"))
+        try:
+            res = json.loads(r.stdout.strip().splitlines()[-1])
+        except Exception:  # noqa
+            acc.failure("harness:import_in_thread", case, (r.stdout + r.stderr)[-500:])
+            continue
+        if not (res.get("file") or "").startswith(runner.REPO):
+            acc.failure("harness:import_in_thread", case, "imported %r" % res.get("file"))
+            continue
+        for e in res["errors"]:
+            acc.failure("C12:body_raises:" + e.split(":")[0], case, e)
+        b, a_ = res["before"], res["after"]
+        if a_["tty"] != b["tty"]:
+            acc.failure("C12:tty_attributes_not_restored", case, "before %r after %r" % (b["tty"][:4], a_["tty"][:4]))
+        if a_["fl"] != b["fl"]:
+            acc.failure("C12:file_status_flags_not_restored", case, "")
+        if a_["fds"] != b["fds"]:
+            acc.failure("C12:file_descriptors_leaked", case, "before %r after %r" % (b["fds"], a_["fds"]))
+        if a_["sigint"] != b["sigint"]:
+            acc.failure("C12:sigint_handler_not_restored", case, "before %r after %r" % (b["sigint"], a_["sigint"]))
+        if a_["mask"] != b["mask"]:
+            acc.failure("C12:signal_mask_not_restored", case, "")
+
+
 def run(ctx):
     rep = Report()
+    acc = Acc(seed=ctx.seed)
+    check_import_in_thread(acc)
+    rep.merge(acc, "first_import_on_a_non_main_thread")
     shards = []
     nctx = len(contexts())
     for ci_idx in range(nctx):
